@@ -113,6 +113,7 @@ const (
 	opDrawDistinct     // SliceOfDistinct(Bool()).Draw (rejection-based)
 	opDrawFiltered     // Bool().Filter(id).Draw (rejection-based)
 	opDeepB            // the same helper called from statement B: the tracebacks differ only in the outermost frames
+	opFatalVal         // Fatalf at site D whose MESSAGE depends on the last drawn bool (same traceback, two messages)
 	opCount
 )
 
@@ -132,6 +133,7 @@ type vInv struct {
 	signals  int      // failure signals raised during this invocation (incl. its cleanups and custom fns)
 	nonFatal int
 	fatalAt  int    // site id of the fatal failure, 0 if none
+	failMsg  string // message of a value-dependent failure (opFatalVal)
 	skipped  bool   // ended by skip
 	ended    bool   // body finished (any way)
 	cleanReg int    // cleanups registered
@@ -295,6 +297,15 @@ func (p *vProg) execCB(t *T, ops []uint8, inv *vInv, inCallback bool, inCleanup 
 				inv.fatalAt = 3
 				t.Fatalf("fatal at site C")
 			}
+		case opFatalVal:
+			inv.signals++
+			inv.fatalAt = 11
+			if lastBit {
+				inv.failMsg = "fatal at site D with value true"
+			} else {
+				inv.failMsg = "fatal at site D with value false"
+			}
+			t.Fatalf("fatal at site D with value %v", lastBit)
 		case opFailNow:
 			inv.signals++
 			inv.fatalAt = 4
